@@ -253,6 +253,8 @@ impl MainEvent {
         // delay); duplicate banks need to be tracked separately.
         let mut wire_seen = [false; TPC_ANODE_WIRES];
         let mut pad_signals = [(); TPC_PAD_COLUMNS].map(|_| [(); TPC_PAD_ROWS].map(|_| None));
+        // Same as above: a pad can end up without a signal.
+        let mut pad_seen = [[false; TPC_PAD_ROWS]; TPC_PAD_COLUMNS];
         let mut trigger_timestamp = None;
         // Need to group chunks by board and chip.
         let mut pwb_chunks_map: HashMap<_, Vec<_>> = HashMap::new();
@@ -351,11 +353,12 @@ impl MainEvent {
                         usize::from(pad_position.column),
                         usize::from(pad_position.row),
                     );
-                    if pad_signals[pad_index.0][pad_index.1].is_some() {
+                    if pad_seen[pad_index.0][pad_index.1] {
                         return Err(TryMainEventFromDataBanksError::DuplicatePadSignal {
                             position: pad_position,
                         });
                     } else {
+                        pad_seen[pad_index.0][pad_index.1] = true;
                         let baseline = try_pad_baseline(run_number, pad_position)?;
                         let gain = try_pad_gain(run_number, pad_position)?;
                         let delay = try_pad_delay(run_number)?;
